@@ -171,7 +171,8 @@ def make_target(fam, image_k, seed, serial=None, es_len=None):
             sim.set(35184, 1)  # battery present so that the battery block is read
     elif fam == "DT":
         inv = goodwe.DT("192.0.2.1", 8899)
-        sim = siminv.make_dt_sim(serial=serial or b"9010KDTU000W0000", default=_image(image_k, seed))
+        dts = siminv.dt_serials()      # three-phase and single-phase tags: the model filters differ
+        sim = siminv.make_dt_sim(serial=serial or dts[(image_k // 8 + seed) % len(dts)], default=_image(image_k, seed))
     else:
         inv = goodwe.ES("192.0.2.1", 8899)
         n1 = es_len if es_len is not None else 142
